@@ -280,6 +280,15 @@ def World.wrap (g : Cfg) (w : World) (c : Nat) (cls : List Char) (ad : Option Ad
     | none => .error .indexError
   | _, _ => .error .indexError
 
+/-- `conn.add_adapter(adapter)`: `self.adapters.append(adapter)` — the adapter goes to the END of the list of
+this connection object only.  Connections derived earlier built their own list (`own_adapters +
+parent.adapters` is a new list) and do not see it; connections derived later copy it (`World.wrap`).
+`none` = an adapter that does not touch headers (path prefix, response adapter) -/
+def World.addAdapter (w : World) (c : Nat) (ad : Option Adapter) : Except Err World :=
+  match w.conns[c]? with
+  | none => .error .indexError
+  | some cn => .ok { w with conns := w.conns.set c { cn with adapters := cn.adapters ++ ad.toList } }
+
 def setImpl (l : List Impl) (i : Nat) (x : Impl) : List Impl := l.set i x
 
 def authName : List Char := "Authorization".toList
@@ -363,7 +372,9 @@ inductive Outcome where
   deriving DecidableEq, Repr
 
 /-- a request together with its outcome: the request was sent in each case, nothing it did is undone —
-in particular the number it took stays taken; the flag says whether the caller sees an exception -/
+in particular the number it took stays taken (a modelling decision: there is no step here that could give it
+back; tied to the source by the translator's `otherWriters` = [] and by the tie); the flag says whether the
+caller sees an exception -/
 def World.requestOutcome (g : Cfg) (w : World) (c : Nat) (src : HdrSrc) (hasData : Bool) (o : Outcome) :
     Except Err (World × Headers × Bool) :=
   match w.request g c src hasData with
